@@ -28,7 +28,7 @@ VALUES = ["red", "1px", "10px solid red", "#fff", "#FFF", "#12g", "rgb(1,2,3)", 
           "'Times New Roman'", '"Arial"', "a-b", "a-b-c", "1 , 2", "(1,2)", "( 1 )", "()", "(a)", "rgb(1,2", "12345px", "1..2em", ".5em",
           "1e3", "-1px", "+1px", "1px!important", "red ! important", "/*x*/red", "r\\65 d", "@import", "{}", "<b>", "&quot;", "a:b",
           "", " ", "x;y", "inherit", "transparent", "medium", "thick dotted blue", "0", "00.00)", "1,", "1)", "rgb(1,)", "rgb(,1)", "rgb(1%,,)",
-          "url(x)url(y)", "u url(x) l", "ur\nl(x)", "url\t(\tx\t)", "\x1cred", "red\x1f", "1\x0bpx"]
+          "url(x)url(y)", "u url(x) l", "uurl(http://evil.example/c.cur)rl(7)", "ururl(a)l(1,2)", "u url(x)rl(3)", "exprexpression(1)ession(2)", "urlurl(x)(7)", "ur\nl(x)", "url\t(\tx\t)", "\x1cred", "red\x1f", "1\x0bpx"]
 SEPS = [";", "; ", " ;", ";;", "", ";\n", " ; \t"]
 
 
@@ -115,7 +115,9 @@ def check_style_value(out, svg, where, witness):
         fs.append(Finding(("style", kind), witness, "surviving style %r %s" % (out, detail), observed=out,
                           oracle="tools/oracles/css_decl.py (CSS Syntax Level 3 declaration-list tokenizer)"))
     for u in info["urls"]:
-        inert = re.fullmatch(r"[\d,\s]*", u) is not None
+        # inert: a BAD url token (white space inside the argument) or an empty one whose argument is digits / commas / blanks; a well-formed url token
+        # with a non-empty argument names a resource ("url(7)" fetches the relative URL 7) whatever its characters
+        inert = re.fullmatch(r"[\d,\s]*", u) is not None and u not in info.get("valid_urls", [])
         bad("url-token-inert" if inert else "url-token-live", "contains url token %r" % (u,))
     for fn, arg in info["functions"]:
         if fn.lower() in ("url", "expression", "image", "image-set", "element", "src", "attr", "var", "env"):
